@@ -20,9 +20,10 @@ CLAIMED.update({
  "C02": dict(
    text="Coq proof that the model of Shape.focus_nodes (five target kinds, implicit class targets through SHACL-instance of rdfs:Class in the shapes graph, "
         "rdflib's transitive subclass walk) returns, without duplicates, exactly the nodes the SHACL target semantics prescribes, on arbitrary graphs incl. "
-        "subclass cycles; differential correspondence of Shape.focus_nodes and of validate() (sh:in () makes sh:focusNode enumerate the focus set).",
+        "subclass cycles; differential correspondence of Shape.focus_nodes and of validate() (sh:in () makes sh:focusNode enumerate the focus set). "
+        "Tie A for the subclass walk itself: pyshacl/rdfutil/closure.py is regenerated (translator/t4.py) as work-list programs and proved to terminate on every graph with exactly the model's subclasses / superclasses, each once.",
    note=BASE_NOTE + "The shape-cache construction (_build_node_shape_cache) is exercised by correspondence only, not modelled.",
-   technique="Coq proof (closure = clos_refl_trans, reuse of the C03 path theorems) + vm_compute correspondence",
+   technique="Coq proof (closure = clos_refl_trans, reuse of the C03 path theorems; loop invariant for the generated work-list programs) + translator t4 + vm_compute correspondence",
    ref="4 (C02)"),
  "C04": dict(
    text="Coq proofs about the executable model of Shape.validate and the shape-expecting components, for every environment (recursive or not), option setting "
@@ -176,7 +177,7 @@ CLAIMED.update({
 CLAIMED.update({
  "C09": dict(
    text="PARTIAL by design. Proved for the evaluator model: validating the shapes in any other order (the iteration order of the set of shapes) gives the same verdict and a permutation of the results (for any environment, data, options without abort_on_first); the environment is a look-up table whose order is immaterial when shape identifiers are distinct; "
-        "a pick of an arbitrary element from a singleton set is choice-independent. NOT a theorem: independence of the real code from triple insertion order, blank-node labels, prefix bindings and PYTHONHASHSEED. That is decided by a multi-process differential: every case is validated in a baseline process and in further processes with other hash seeds, shuffled insertion order, consistently relabelled blank nodes and other prefix bindings; "
+        "a pick of an arbitrary element from a singleton set is choice-independent; the subclass closures generated from pyshacl/rdfutil/closure.py (Tie A) return the same node set for any two listings of the same triples. NOT a theorem: independence of the real code from triple insertion order, blank-node labels, prefix bindings and PYTHONHASHSEED. That is decided by a multi-process differential: every case is validated in a baseline process and in further processes with other hash seeds, shuffled insertion order, consistently relabelled blank nodes and other prefix bindings; "
         "verdict, result count of the text and the multiset of results (blank nodes named by their descriptions, nested details included) must be equal. Families: nested shapes, all core components, SPARQL constraints/components, rule sets with distinct sh:order through shacl_rules() and validate(advanced).",
    note=BASE_NOTE + "The order theorem is tied to /repo by the model-vs-implementation correspondence run with shuffled shape order. Default-message wording is not compared (the property allows its order to vary).",
    technique="Coq proof (permutation invariance of the shape loop) + vm_compute correspondence + multi-process hash-seed / permutation / relabelling differential on /repo",
